@@ -528,6 +528,56 @@ fn zero_row_probe<T: Sc>(rep: &mut Report) {
     }
 }
 
+/// C12 with a caller's threshold that truncates part of the spectrum at the solution, on a WELL
+/// determined problem: the degrees of freedom are N - M - P (basis functions are counted, not the
+/// numerical rank).  Phi = [1 | 1e-3 (i - 2.5)], threshold 0.05: the second singular value is
+/// truncated, c = (mean y, 0); D c = c_0 (1,-1,1,-1,1,-1); y = 3 + (1,1,-2,-2,1,1) is exactly
+/// stationary; chi2 = 12 / (6 - 2 - 1) = 4.
+fn truncated_stats_probe<T: Sc>(rep: &mut Report) {
+    let n = 6usize;
+    let ramp = |i: usize| 1e-3 * (i as f64 - 2.5);
+    let alt = |i: usize| if i % 2 == 0 { 1.0 } else { -1.0 };
+    let t = [1.0f64, 1.0, -2.0, -2.0, 1.0, 1.0];
+    let entry = TableEntry {
+        a: vec![0],
+        phi: DMatrix::from_fn(n, 2, |i, j| T::of64(if j == 0 { 1.0 } else { ramp(i) })),
+        dphi: vec![DMatrix::from_fn(n, 2, |i, j| T::of64(if j == 0 { alt(i) } else { 0.0 }))],
+    };
+    let table = Arc::new(Table { n, m: 2, p: 1, entries: vec![entry] });
+    let y = DMatrix::from_fn(n, 1, |i, _| T::of64(3.0 + t[i]));
+    for par in [false, true] {
+        let flav = format!("truncated statistics probe {} par={}", T::NAME, par);
+        let det = |what: &str, dv: f64| json!({"flavour": flav, "what": what, "dev": dv});
+        let Ok(prob) = build_problem(TableModel::new(table.clone(), &[0]), false, par, &y, None, Some(T::of64(0.05))) else {
+            rep.tool_error(format!("cannot build {flav}"));
+            continue;
+        };
+        let out = match catch_unwind(AssertUnwindSafe(|| prob.fit_stats(&stat_cfg::<T>(), &[0.5], &[]))) {
+            Err(_) => {
+                rep.violation("C12", det("fit_with_statistics panicked", 0.0));
+                continue;
+            }
+            Ok(o) => o.expect("single rhs"),
+        };
+        if !(out.fit.nfev == 1 && out.fit.ok) {
+            rep.count("truncated_stats_probe_left_the_start", 1);
+            continue;
+        }
+        let Some(st) = out.stats else {
+            rep.violation("C12", det("fit_with_statistics returned Err on a well determined, successful fit (truncated solve)", 0.0));
+            continue;
+        };
+        let ss: f64 = st.wres.iter().map(|v| v.to64() * v.to64()).sum();
+        let d1 = (ss - 12.0).abs() / 12.0;
+        rep.check("C12", d1 <= T::tol(), d1, || det("weighted residuals are not those of the truncated solution (|r|^2 = 12)", d1));
+        let d2 = (st.chi2.to64() - 4.0).abs() / 4.0;
+        rep.check("C12", d2 <= T::tol(), d2, || det("reduced_chi2 != |r_w|^2 / (N - M - P) = 4 when the solve is truncated (the numerical rank is not the count)", d2));
+        let d3 = (st.rse.to64() - 2.0).abs() / 2.0;
+        rep.check("C12", d3 <= T::tol(), d3, || det("regression_standard_error != 2", d3));
+        rep.count("truncated_stats_probes", 1);
+    }
+}
+
 /// Beyond the universe TLC enumerates (32-bit determinants stop at M+P = 4): a fit with M = 7 basis
 /// functions and one nonlinear parameter (8 x 8 covariance), N = 58 (50 degrees of freedom, tabulated).
 /// No exact oracle: certificates computed from the RETURNED parameters and coefficients with the
@@ -642,6 +692,8 @@ pub fn run(path: &str) -> Report {
     zero_row_probe::<f64>(&mut total);
     zero_row_probe::<f32>(&mut total);
     stats_certificate_probe(&mut total);
+    truncated_stats_probe::<f64>(&mut total);
+    truncated_stats_probe::<f32>(&mut total);
     let reps: Vec<Report> = st
         .par_iter()
         .enumerate()
